@@ -306,6 +306,9 @@ func parent(prop, tier, only string) int {
 		fmt.Println("KEEPING", outdir)
 	}
 	replayDir := filepath.Join(verifDir(), "replays")
+	if d := os.Getenv("VERIF_OUT_DIR"); d != "" {
+		replayDir = filepath.Join(d, "replays")
+	}
 	os.MkdirAll(replayDir, 0o755)
 
 	budget := 12 * time.Minute
@@ -449,6 +452,9 @@ func parent(prop, tier, only string) int {
 	wall := time.Since(start).Seconds()
 	ev := buildEvidence(merged, prop, tier, seed, wall, unknown)
 	evPath := filepath.Join(verifDir(), "evidence", prop+".json")
+	if d := os.Getenv("VERIF_OUT_DIR"); d != "" {
+		evPath = filepath.Join(d, "evidence", prop+".json")
+	}
 	os.MkdirAll(filepath.Dir(evPath), 0o755)
 	if b, err := json.MarshalIndent(ev, "", " "); err == nil && only == "" {
 		os.WriteFile(evPath, b, 0o644)
